@@ -6,6 +6,9 @@ package `ioflo` itself is imported alone by
 in a clean subprocess (cwd = empty temp dir outside the repo, no PYTHONPATH / PYTHONSTARTUP,
 nothing imported before it; in particular not collections.abc).
 Oracle: exit status 0 and no traceback (warnings on stderr are not failures).
+(a') bare: the same solo import in an interpreter started with -S, so that nothing has been preloaded by the
+environment's start-up hooks (site, .pth files import e.g. importlib.util): same outcome as (a), unless a
+third-party module is merely not on the bare path.
 (b) orders: Hypothesis draws permutations of subsets (2..12 modules) and of the full module set; one fresh process
 imports them one after another, each import wrapped so its own outcome is recorded (the
 driver imports nothing but sys). Oracle (metamorphic): outcome of m after any prefix ==
@@ -30,7 +33,7 @@ PROPERTY = "C01"
 LEVEL = "exploration"
 IMPORTS_IOFLO = False          # the check itself never imports ioflo in-process
 RULE = ("solo: every module found under <repo>/ioflo (exhaustive) + `import ioflo`, each in a clean "
-        "subprocess; orders: Hypothesis-drawn permutations of subsets of 2-12 modules and of all modules, imported "
+        "subprocess, normally started and started with -S (no site / .pth preloads); orders: Hypothesis-drawn permutations of subsets of 2-12 modules and of all modules, imported "
         "one after another in one fresh process, each outcome compared with the module's solo outcome. "
         "non-trivial solo = module that is not a package __init__ and imports another ioflo module; "
         "non-trivial order = modules from >= 2 different subpackages; distinct = module / module sequence")
@@ -93,9 +96,9 @@ def _clean_env():
     return e
 
 
-def _run(code, cwd):
+def _run(code, cwd, flags=()):
     try:
-        p = subprocess.run([env.PYTHON, "-B", "-c", code], cwd=cwd, env=_clean_env(), stdin=subprocess.DEVNULL,
+        p = subprocess.run([env.PYTHON, "-B"] + list(flags) + ["-c", code], cwd=cwd, env=_clean_env(), stdin=subprocess.DEVNULL,
                            stdout=subprocess.PIPE, stderr=subprocess.PIPE, timeout=TIMEOUT)
         return p.returncode, p.stdout.decode("utf-8", "replace"), p.stderr.decode("utf-8", "replace")
     except subprocess.TimeoutExpired as ex:
@@ -118,10 +121,11 @@ def _parse_failure(stderr):
     return etype, inner, last
 
 
-def solo(module, cwd):
-    """-> (outcome 'ok' | exception type, detail dict)"""
+def solo(module, cwd, bare=False):
+    """-> (outcome 'ok' | exception type, detail dict).  bare: interpreter started with -S (no site module, so
+    none of the start-up hooks of the environment - .pth files, sitecustomize - has imported anything first)"""
     code = "import sys; sys.path.insert(0, %r); import %s" % (env.REPO, module)
-    rc, out, err = _run(code, cwd)
+    rc, out, err = _run(code, cwd, ("-S",) if bare else ())
     if rc == 0 and "Traceback (most recent call last)" not in err:
         return "ok", {}
     if rc == -999:
@@ -158,6 +162,22 @@ def solo_failures(module, rel, outcome, det):
     return [(sig, what)]
 
 
+def bare_failures(module, rel, outcome, det, bare_outcome, bare_det):
+    """The import outcome must not depend on what the interpreter start-up happened to import: with -S the
+    outcome is the same, unless a third-party (non ioflo) module is simply not on the bare path."""
+    if bare_outcome == outcome:
+        return []
+    last = bare_det.get("last", "")
+    m = re.search(r"No module named '([^']+)'", last)
+    if bare_outcome in ("ModuleNotFoundError", "ImportError") and m and m.group(1).split(".")[0] != "ioflo":
+        return []
+    inner = bare_det.get("inner")
+    sig = "import-bare:%s:%s" % (module, bare_outcome) if (not inner or inner == rel) else "import-bare:%s@%s" % (bare_outcome, inner)
+    what = ("`import %s` alone gives %s in a normally started interpreter but %s in one started with -S (nothing preloaded "
+            "by site / .pth hooks): %s [innermost ioflo file: %s]" % (module, outcome, bare_outcome, last, inner or "?"))
+    return [(sig, what)]
+
+
 def plan(tier):
     shards = [{"part": "solo", "i": i, "n": 8} for i in range(8)]
     if tier == "quick":
@@ -176,7 +196,12 @@ def work(shard, seed, tier):
             todo = [m for k, m in enumerate(mods) if k % shard["n"] == shard["i"]]
             with ThreadPoolExecutor(max_workers=3) as ex:
                 results = list(ex.map(lambda m: solo(m[0], cwd), todo))
-            for (module, rel, is_init), (outcome, det) in zip(todo, results):
+                bares = list(ex.map(lambda m: solo(m[0], cwd, bare=True), todo))
+            for (module, rel, is_init), (outcome, det), (boutcome, bdet) in zip(todo, results, bares):
+                acc.case(key=("solo-bare", module), nontrivial=nontrivial_module(rel, is_init),
+                         classes=["solo-bare", "solo-bare:" + ("ok" if boutcome == "ok" else boutcome)], sample=None)
+                for sig, what in bare_failures(module, rel, outcome, det, boutcome, bdet):
+                    acc.fail(sig, what, {"solo": module, "bare": True})
                 acc.case(key=("solo", module), nontrivial=nontrivial_module(rel, is_init),
                          classes=["solo", "solo:" + ("ok" if outcome == "ok" else outcome),
                                   "solo:package" if is_init else "solo:module"],
@@ -248,6 +273,9 @@ def replay(case):
             module = case["solo"]
             outcome, det = solo(module, cwd)
             rel = info.get(module, ("", False))[0]
+            if case.get("bare"):
+                boutcome, bdet = solo(module, cwd, bare=True)
+                return bare_failures(module, rel, outcome, det, boutcome, bdet)
             return solo_failures(module, rel, outcome, det)
         return check_order(list(case["order"]), cwd, lambda m: solo(m, cwd))
     finally:
